@@ -27,27 +27,18 @@ func (r *vC05Result) count(h, b string) { r.counts = append(r.counts, [2]string{
 const vC05CaseTimeout = 30 * time.Second
 
 func vC05CheckStrictCounts(a Amf0) string {
-	switch x := a.(type) {
-	case *StrictArray:
-		if int(x.count) != len(x.properties) {
-			return fmt.Sprintf("decoded StrictArray has count %d but %d elements", x.count, len(x.properties))
+	_, vals, ok := vC05Props(a)
+	if !ok {
+		return ""
+	}
+	if _, isStrict := a.(*StrictArray); isStrict {
+		if c := vC05CountField(a); int(c) != len(vals) {
+			return fmt.Sprintf("decoded StrictArray has count %d but %d elements", c, len(vals))
 		}
-		for _, p := range x.properties {
-			if d := vC05CheckStrictCounts(p.value); d != "" {
-				return d
-			}
-		}
-	case *Object:
-		for _, p := range x.properties {
-			if d := vC05CheckStrictCounts(p.value); d != "" {
-				return d
-			}
-		}
-	case *EcmaArray:
-		for _, p := range x.properties {
-			if d := vC05CheckStrictCounts(p.value); d != "" {
-				return d
-			}
+	}
+	for _, v := range vals {
+		if d := vC05CheckStrictCounts(v); d != "" {
+			return d
 		}
 	}
 	return ""
@@ -97,17 +88,10 @@ func vC05CheckDecoded(b []byte, a Amf0) *vC05Fail {
 }
 
 func vC05CheckGet(a Amf0, want *vC05Node) string {
-	var ob *objectBase
-	switch x := a.(type) {
-	case *Object:
-		ob = &x.objectBase
-	case *EcmaArray:
-		ob = &x.objectBase
-	case *StrictArray:
-		ob = &x.objectBase
-	default:
+	if !vC05IsContainer(a) {
 		return ""
 	}
+	ob := a.(vC05Getter)
 	seen := map[string]bool{}
 	for _, p := range want.props {
 		if seen[string(p.key)] {
